@@ -27,6 +27,8 @@ CONSTANTS CHMOD,        \* 2^(width of CurrHF); writes to the field truncate (co
           FIXWRAP,      \* TRUE: advance refuses to move CurrHF beyond the field; FALSE: pinned
           FIXHOPS,      \* TRUE: the encoder refuses more hop fields than CurrHF can address; FALSE: pinned
           FIXOHEXP,     \* TRUE: one-hop expiry saturates; FALSE: pinned (plain addition)
+          FIXOHFLG,     \* TRUE: OneHopPathView::set_second_hop clears the flags of the second hop field like the
+                        \*       model (a fresh hop field); FALSE: pinned (the view keeps whatever flags were there)
           FIXOHSEC,     \* TRUE: OneHopPath::set_second_hop copies ExpTime from the first hop like the view
                         \*       (and SCION routers) do; FALSE: pinned (model writes ExpTime 0)
           XorAcc(_, _)  \* accumulator step
@@ -165,7 +167,9 @@ OneHopExpiry(o) ==
 OneHopSecond(o, ifin, key, adv, exp) ==
   [id |-> 2, exp |-> exp, in |-> ifin, eg |-> 0, ai |-> FALSE, ae |-> FALSE,
    mac |-> <<"mac", key, IF adv THEN o.inf.sid ELSE XorAcc(o.inf.sid, o.h1.mac), o.inf.ts, exp, ifin, 0>>]
-OneHopSetSecondView(o, ifin, key, adv) == [o EXCEPT !.h2 = OneHopSecond(o, ifin, key, adv, o.h1.exp)]
+OneHopSetSecondView(o, ifin, key, adv) ==
+  LET f == OneHopSecond(o, ifin, key, adv, o.h1.exp) IN
+  [o EXCEPT !.h2 = IF FIXOHFLG THEN f ELSE [f EXCEPT !.ai = o.h2.ai, !.ae = o.h2.ae]]
 OneHopSetSecondModel(o, ifin, key, adv) ==
   [o EXCEPT !.h2 = OneHopSecond(o, ifin, key, adv, IF FIXOHSEC THEN o.h1.exp ELSE 0)]
 OneHopFirstEgress(o) == TravelEg(o.h1, o.inf)
